@@ -302,6 +302,125 @@ def main():
     else:
         status['gmt_element'] = dict(status='refused', reason='crs was refused')
 
+    # ---- _numba_construct_gmt: for i in range(n): for j in range(n): fill four arrays at i*n+j
+    def gen_construct():
+        f = find(layout, '_numba_construct_gmt')
+        if [a.arg for a in f.args.args] != ['index_to_bitmap', 'bitmap_to_index', 'signature']:
+            raise Refuse("parameters")
+        aliases = {}          # k_list -> row 0 of coords, ...
+        for st in f.body:
+            if isinstance(st, ast.Assign) and isinstance(st.value, ast.Subscript) and ast.unparse(st.value.value) == 'coords':
+                aliases[st.targets[0].id] = ast.unparse(st.value.slice).strip('()')
+        rows = {v: k for k, v in aliases.items()}
+        if set(rows) != {'(0, slice(None, None, None))', '0, :', '1, :', '2, :'} & set(rows) or len(aliases) != 3:
+            pass
+        want = {'0, :': 'k', '1, :': 'l', '2, :': 'm'}
+        role = {}
+        for nm, sl in aliases.items():
+            if sl not in want:
+                raise Refuse(f"unexpected view {nm} = coords[{sl}]")
+            role[nm] = want[sl]
+        if sorted(role.values()) != ['k', 'l', 'm']:
+            raise Refuse("the three coordinate rows are not all aliased")
+        outer = [st for st in f.body if isinstance(st, ast.For)]
+        if len(outer) != 1 or ast.unparse(outer[0].iter) != 'range(n)' or not isinstance(outer[0].target, ast.Name):
+            raise Refuse("outer loop is not `for i in range(n)`")
+        nassign = [st for st in f.body if isinstance(st, ast.Assign) and ast.unparse(st.targets[0]) == 'n']
+        if len(nassign) != 1 or ast.unparse(nassign[0].value) != 'len(index_to_bitmap)':
+            raise Refuse("n is not len(index_to_bitmap)")
+        iv = outer[0].target.id
+        inner = [st for st in outer[0].body if isinstance(st, ast.For)]
+        pre = [st for st in outer[0].body if not isinstance(st, ast.For)]
+        if len(inner) != 1 or ast.unparse(inner[0].iter) != 'range(n)' or not isinstance(inner[0].target, ast.Name):
+            raise Refuse("inner loop is not `for j in range(n)`")
+        jv = inner[0].target.id
+        env = {}          # local name -> lean term (Nat unless noted)
+
+        def ex(e):
+            if isinstance(e, ast.Name):
+                if e.id in (iv, jv):
+                    return e.id
+                if e.id in env:
+                    return env[e.id]
+                raise Refuse(f"name {e.id}")
+            if isinstance(e, ast.Subscript) and isinstance(e.value, ast.Name) and e.value.id in ('index_to_bitmap', 'bitmap_to_index'):
+                return f"({'i2b' if e.value.id == 'index_to_bitmap' else 'b2i'} {ex(e.slice)})"
+            raise Refuse(f"expression {ast.unparse(e)}")
+        fills = {}
+        for st in pre + inner[0].body:
+            if isinstance(st, ast.Assign) and isinstance(st.targets[0], ast.Name):
+                nm = st.targets[0].id
+                if nm == 'list_ind':
+                    if ast.unparse(st.value) not in (f'{iv} * n + {jv}', f'n * {iv} + {jv}', f'{jv} + {iv} * n'):
+                        raise Refuse("list_ind is not i*n + j")
+                    continue
+                env[nm] = ex(st.value)
+            elif isinstance(st, ast.Assign) and isinstance(st.targets[0], ast.Tuple) and isinstance(st.value, ast.Call) \
+                    and ast.unparse(st.value.func) == 'gmt_element':
+                a, b, c = st.value.args
+                if ast.unparse(c) != 'signature':
+                    raise Refuse("gmt_element is not called with the signature")
+                t0, t1 = [x.id for x in st.targets[0].elts]
+                call = f"(GenLoop.gmt_element {ex(a)} {ex(b)} sig)"
+                env[t0], env[t1] = f"{call}.1", f"{call}.2"
+            elif isinstance(st, ast.Assign) and isinstance(st.targets[0], ast.Subscript) and ast.unparse(st.targets[0].slice) == 'list_ind':
+                arr = ast.unparse(st.targets[0].value)
+                if arr in role:
+                    fills[role[arr]] = ex(st.value)
+                elif arr == 'mult_table_vals':
+                    fills['v'] = ex(st.value)
+                else:
+                    raise Refuse(f"fill of {arr}")
+            else:
+                raise Refuse(f"statement {ast.unparse(st)[:40]}")
+        if sorted(fills) != ['k', 'l', 'm', 'v']:
+            raise Refuse("not all of k_list, l_list, m_list, mult_table_vals are filled at list_ind")
+        txt = ("def construct_gmt (sig : Nat → Int) (i2b b2i : Nat → Nat) (n : Nat) : List Entry :=\n"
+               f"  (List.range n).flatMap fun {iv} => (List.range n).map fun {jv} =>\n"
+               f"    {{ k := {fills['k']}, l := {fills['l']}, m := {fills['m']}, v := {fills['v']} }}\n")
+        th = ("theorem construct_gmt_eq (sig : Nat → Int) (i2b b2i : Nat → Nat) (n : Nat) : GenLoop.construct_gmt sig i2b b2i n = Model.constructGmt sig i2b b2i n := by\n"
+              "  simp only [GenLoop.construct_gmt, Model.constructGmt, gmt_element_eq]\n")
+        return txt, th
+    if status.get('gmt_element', {}).get('status') == 'ok':
+        emit('construct_gmt', gen_construct)
+    else:
+        status['construct_gmt'] = dict(status='refused', reason='gmt_element was refused')
+
+    # ---- _numba_construct_graded_mt: mask[ind] = check_func(grade_l, grade_k, grade_m); keep the masked entries
+    def gen_graded():
+        f = find(layout, '_numba_construct_graded_mt')
+        if [a.arg for a in f.args.args] != ['index_to_grade', 'coords', 'gmt_vals', 'check_func']:
+            raise Refuse("parameters")
+        loops = [st for st in f.body if isinstance(st, ast.For)]
+        if len(loops) != 1 or ast.unparse(loops[0].iter) not in ('range(coords.shape[1])', 'range(n_elems)'):
+            raise Refuse("loop is not over the entries")
+        env = {}
+        maskexpr = None
+        for st in loops[0].body:
+            if isinstance(st, ast.Assign) and isinstance(st.targets[0], ast.Tuple) and ast.unparse(st.value) == 'coords[:, ind]':
+                names = [x.id for x in st.targets[0].elts]
+                if len(names) != 3:
+                    raise Refuse("coords[:, ind] is not unpacked into three names")
+                env.update({names[0]: 'e.k', names[1]: 'e.l', names[2]: 'e.m'})
+            elif isinstance(st, ast.Assign) and isinstance(st.targets[0], ast.Name) and isinstance(st.value, ast.Subscript) \
+                    and ast.unparse(st.value.value) == 'index_to_grade' and isinstance(st.value.slice, ast.Name) and st.value.slice.id in env:
+                env[st.targets[0].id] = f"((grade {env[st.value.slice.id]} : Nat) : Int)"
+            elif isinstance(st, ast.Assign) and ast.unparse(st.targets[0]) == 'mask[ind]' and isinstance(st.value, ast.Call) \
+                    and ast.unparse(st.value.func) == 'check_func' and all(isinstance(a, ast.Name) and a.id in env for a in st.value.args):
+                maskexpr = "check " + " ".join(env[a.id] for a in st.value.args)
+            else:
+                raise Refuse(f"statement {ast.unparse(st)[:40]}")
+        ret = [st for st in f.body if isinstance(st, ast.Return)]
+        if maskexpr is None or len(ret) != 1 or ast.unparse(ret[0].value) != '(coords[:, mask], gmt_vals[mask])':
+            raise Refuse("does not return (coords[:, mask], gmt_vals[mask])")
+        txt = ("def construct_graded_mt (grade : Nat → Nat) (check : Int → Int → Int → Bool) (es : List Entry) : List Entry :=\n"
+               f"  es.filter fun e => {maskexpr}\n")
+        th = ("theorem construct_graded_mt_eq (grade : Nat → Nat) (check : Int → Int → Int → Bool) (es : List Model.Entry) : "
+              "GenLoop.construct_graded_mt grade check es = Model.gradedMt grade check es := by\n"
+              "  simp only [GenLoop.construct_graded_mt, Model.gradedMt]\n")
+        return txt, th
+    emit('construct_graded_mt', gen_graded)
+
     out.append("end GenLoop\n\n")
     names = {}
     for name, t in thms:
